@@ -445,6 +445,45 @@ impl C03 {
                     }
                 }
             }
+            // a zero derivative is a zero derivative whatever its sign bit: a slot holding -0.0 (what negation,
+            // multiplication by -1 or abs of a negative number leave behind) against +0.0, in the same layout
+            // (independent and shared variable lists) and in another layout - equal every time
+            if !l.is_empty() {
+                let k = l[rng.usize(l.len())];
+                let mut cz = ca.clone();
+                cz.g[k] = 0.0;
+                let mut cn = cz.clone();
+                cn.g[k] = -0.0;
+                if second && rng.bool() {
+                    cz.h[k][k] = 0.0;
+                    cn.h[k][k] = -0.0;
+                }
+                if let Ok(z) = T::leaf(&spec_for(&cz, l, order, None), &[]) {
+                    let mut pairs: Vec<(&'static str, T)> = vec![];
+                    if let Ok(x) = T::leaf(&spec_for(&cn, l, order, None), &[]) {
+                        pairs.push(("negative-zero-derivative:same-layout", x));
+                    }
+                    if let Ok(x) = T::leaf(&spec_for(&cn, l, order, Some(0)), &[z.clone()]) {
+                        pairs.push(("negative-zero-derivative:shared-arc", x));
+                    }
+                    if let Ok(x) = T::leaf(&spec_for(&cn, &r_sup, order, None), &[]) {
+                        pairs.push(("negative-zero-derivative:other-layout", x));
+                    }
+                    for (what, other) in pairs.iter() {
+                        let rel = T::relationship(&z, other);
+                        ctx.class(&format!("eq:{}:{}", tname, what));
+                        let (got1, got2) = (T::equals(&z, other), T::equals(other, &z));
+                        ctx.eval(2);
+                        ctx.asserted(2);
+                        if !got1 || !got2 {
+                            ctx.violation(
+                                &format!("C03|eq|{}|{}|{}", tname, what, rel_name(&rel)),
+                                json!({"type": tname, "what": what, "lhs": z.describe(), "rhs": other.describe(), "lhs_eq_rhs": got1, "rhs_eq_lhs": got2, "expected": true, "slot_holding_negative_zero": NAMES[k]}),
+                            );
+                        }
+                    }
+                }
+            }
             for (what, other, want) in eq_cases.iter() {
                 let e1 = if what.starts_with("disjoint") { e1_alt.clone().unwrap() } else { e1.clone() };
                 let rel = T::relationship(&e1, other);
@@ -487,7 +526,7 @@ impl Prop for C03 {
             for m in ["independent", "shared-arc", "zero-padded"] {
                 v.push(format!("mode:{}:{}", t, m));
             }
-            for e in ["same-content-other-layout", "zeros-dropped", "one-derivative-differs", "value-differs", "extra-name-nonzero", "disjoint-zero-padding", "disjoint-padding-nonzero"] {
+            for e in ["same-content-other-layout", "zeros-dropped", "one-derivative-differs", "value-differs", "extra-name-nonzero", "disjoint-zero-padding", "disjoint-padding-nonzero", "negative-zero-derivative:same-layout", "negative-zero-derivative:shared-arc", "negative-zero-derivative:other-layout"] {
                 v.push(format!("eq:{}:{}", t, e));
             }
         }
@@ -513,7 +552,7 @@ impl Prop for C03 {
         tier.pick(300_000, 5_000_000)
     }
     fn rule(&self) -> String {
-        "Complete enumeration of (ordered left variable list) x (ordered right variable list) over a pool of 4 (quick: 65^2 pairs) or 5 (thorough: 326^2 pairs) names, including empty lists, x storage mode (independent Arcs, shared Arc via try_new_from, zero-padded supersets) x operators + - * / % and == x Dual, Dual2 x 3 seeded coefficient draws. Each concrete layout must give, as name-keyed maps, the canonical (sorted, unshared) layout's result to 4 ulp, the reference-AD result within the noise band, and exactly the union of the operand names; equality must treat missing and zero alike and detect one-entry differences. distinct_nontrivial counts distinct (left list, right list, type) with at least one non-empty list.".into()
+        "Complete enumeration of (ordered left variable list) x (ordered right variable list) over a pool of 4 (quick: 65^2 pairs) or 5 (thorough: 326^2 pairs) names, including empty lists, x storage mode (independent Arcs, shared Arc via try_new_from, zero-padded supersets) x operators + - * / % and == x Dual, Dual2 x 3 seeded coefficient draws. Each concrete layout must give, as name-keyed maps, the canonical (sorted, unshared) layout's result to 4 ulp, the reference-AD result within the noise band, and exactly the union of the operand names; equality must treat missing and zero alike (a slot holding -0.0 against +0.0 included, in the same layout, on a shared list and in another layout) and detect one-entry differences. distinct_nontrivial counts distinct (left list, right list, type) with at least one non-empty list.".into()
     }
     fn assumptions(&self) -> Vec<String> {
         vec!["variable order of the result is not asserted (only the set)".into(), "remainder cases with a/b within 1e-6 of an integer are skipped (the jump)".into()]
